@@ -3,6 +3,7 @@ package main
 // one import per property package; each registers itself in init().
 import (
 	_ "verif/c01"
+	_ "verif/c02"
 	_ "verif/c03"
 	_ "verif/c04"
 	_ "verif/c05"
